@@ -29,6 +29,7 @@ def pause_execution(pool: Any, execution_id: str, paused_by: str) -> None:
                     status = %(status)s,
                     paused = %(paused)s::jsonb
                 WHERE id = %(id)s
+                  AND status NOT IN ('SUCCEEDED', 'TERMINAL', 'CANCELED', 'STOPPED', 'SKIPPED', 'FAILED_CONTINUE')
                 """,
                 {
                     "id": execution_id,
